@@ -115,6 +115,20 @@ def build_form(case, with_heur=True):
         o0.set_depot(spec["nodes"][0]["name"])
         for a in spec["arcs"][kb:]:
             o0.add_arc(a[0], a[1], VU.val(a[2]), VU.val(a[3]))
+        # the routing problem described by these calls is the one a depot-first construction describes (the strict sequence flavour
+        # checks arcs against the depot known at the time of the call, so only the base flavour is compared)
+        if not (form == "seq" and case["strict"]):
+            vr = VU.build_vrptw(spec)
+            ref = (ArcBasedRoutingProblem(vr) if form == "arc" else PathBasedRoutingProblem(vr) if form == "path"
+                   else SequenceBasedRoutingProblem(vr, strict=False))
+            gw, gr = VU.graph_of(o0), VU.graph_of(ref)
+            if form == "seq":
+                # the sequence-based set_depot installs a free depot self-loop; whether a depot self-arc given by the caller survives
+                # depends on whether it was given before or after set_depot (documented behaviour), so it is not compared
+                gw["arcs"] = [a for a in gw["arcs"] if (a[0], a[1]) != (0, 0)]
+                gr["arcs"] = [a for a in gr["arcs"] if (a[0], a[1]) != (0, 0)]
+            if (gw["nodes"], sorted(gw["arcs"]), gw["cap"], gw["init"]) != (gr["nodes"], sorted(gr["arcs"]), gr["cap"], gr["init"]):
+                o0.vh_graph_mismatch = (gw, gr)
     else:
         v = VU.build_vrptw(case["spec"])
         o0 = None
@@ -153,6 +167,19 @@ def build_form(case, with_heur=True):
         except Exception as e:  # noqa
             outcome = core.err_kind(e) + ":" + repr(e)[:120]
     return o, outcome
+
+
+def check_construction(o, res):
+    """a formulation assembled call by call (late depot) must describe the same VRPTW as the depot-first construction"""
+    mm = getattr(o, "vh_graph_mismatch", None)
+    if mm:
+        gw, gr = mm
+        lost = [a for a in gr["arcs"] if a not in gw["arcs"]][:3]
+        extra = [a for a in gw["arcs"] if a not in gr["arcs"]][:3]
+        res.fail("construction:graph", "the formulation object assembled through add_node/add_arc/set_depot (depot named late) does not hold the "
+                 f"specified routing problem: arcs lost {lost}, arcs not specified {extra}, nodes {gw['nodes'] != gr['nodes']}")
+        return False
+    return True
 
 
 def inst_tokens(o, form):
